@@ -176,6 +176,8 @@ def plan_C18(p, tier, seed):
     p.add(BoundedUnit("bounded.C18/itow-utc", bounded.itow_utc, (tier, seed), props=("C18",)))
     p.add(BoundedUnit("bounded.C18/val2sphp", bounded.val2sphp, (tier, seed), props=("C18",)))
     p.add(BoundedUnit("bounded.C18/att2idx-att2name", bounded.att_names, (tier, seed), props=("C18",)))
+    from . import difftest
+    p.add(BoundedUnit("engine-guard/difftest", difftest.difftest_unit, (tier, seed), props=("C18",)))
     p.min_obligations = 300
     p.instances = {"type_constants": len(types)}
     p.exhaustive = True
